@@ -597,7 +597,7 @@ fn compare<T>(o: &mut Out, spec: &Spec<T>, v: &T, restored: &T, obs0: &Ob, dbg0:
                 o.viol(&format!("{}differs.{}", stage, sanitize(&name)), fname, what);
             }
         }
-        Err(p) => o.viol(&format!("{}observe.panic", stage), fname, format!("using the restored value panicked: {}", p)),
+        Err(p) => o.viol(&format!("{}restored_value_panics", stage), fname, format!("using the restored value panicked: {}", p)),
     }
     let _ = v;
 }
